@@ -25,7 +25,19 @@ TECHNIQUE = ("Lean 4 non-interference proofs over a file-effect summary and an i
 RULE = ("one case = one (history, observed call) pair whose output files are byte-compared with the fresh-process/empty-directory run; non-trivial = "
         "the history has at least one earlier call or left-over file; distinct by the history")
 EXPLANATION = LEVEL_TEXT
-TRUSTED = ["harness/extractors/effects.py (static effect extraction; validated against the audit trace each run)", "Python audit events 'open', 'os.system', 'os.remove' are complete for file access of the stage",
+TRUSTED = ["harness/extractors/effects.py (static effect extraction; validated against the audit trace each run)", "Python audit events 'open', 'os.system', 'os.remove', 'os.rename' are complete for file access of the stage",
+           "harness/extractors/_norm_c16.py, semantics-preserving readings shared by both extractors: (A) one level of helper inlining -- a private module-level "
+           "helper or a closure of the caller, undecorated, constant defaults only, straight-line body with at most one final return, no yield/global/nonlocal/"
+           "nested def/lambda/import/walrus, called as a whole statement `T = h(..)`/`h(..)`/`return h(..)`; locals renamed apart, arguments bound in call order, "
+           "a never-rebound parameter replaced by a constant or caller-local argument; refused when a global read by the helper is shadowed in the caller; "
+           "(B) order of statements/calls taken from the source order, not from line numbers; (C) key flow -- names that only ever hold a<i> strings / lists of "
+           "them (index, zip, enumerate loops, f-string/format/concatenation/%-keys, list indexing) and `dict.update(zip(names, symbols))` / `.update({key: ..})` "
+           "read as item-by-item stores into a<i> keys; only the FORM of the keys is claimed, other keys changing is caught by the memory fingerprints",
+           "effects.py readings: file names through %/f-string/str.format/concatenation/os.path.join/hoisted locals/module-level constants; literal lists and tuples of "
+           "names unrolled; open mode positional, mode=, or via a local literal ('b'/'t' dropped); os.rename/os.replace/shutil.move = mv, os.unlink = os.remove, "
+           "shutil.copy* = read+write; unknown pathlib/tempfile/shutil/np.save-like file operations fail closed; the symbol table recognised as the module-level dict "
+           "of esr/fitting/sympy_symbols.py under any alias (also returned by a called function); generator objects seeded by a literal, a local literal or a parameter",
+           "memstate.py readings: a returned plain alias of a mutable cell is tracked in the caller; pairwise tuple assignment; see its docstring",
            "harness/extractors/memstate.py (static cell/access extraction: name-based call graph, methods on unknown receivers resolved to every esr method of that name, "
            "statement-level dominance for 're-initialised before use'; fails closed on unclassified initialisers, decorators, methods of mutable cells, escaping aliases, "
            "process-wide setters; validated against memory fingerprints each run)",
@@ -110,6 +122,10 @@ def _validate_trace(ctx, trace, libdir):
             effs.append((path, acc))
         elif ev[0] == "remove":
             effs.append((ev[1], "rm"))
+        elif ev[0] == "rename":
+            if not (os.path.abspath(ev[1]).startswith(os.path.abspath(libdir)) or os.path.abspath(ev[2]).startswith(os.path.abspath(libdir))):
+                continue
+            effs += [(ev[1], "r"), (ev[2], "w"), (ev[1], "rm")]
         elif ev[0] == "system":
             try:
                 for k, a in _shell_effects(ev[1]):
